@@ -411,11 +411,9 @@ def main(tier):
     from mc.alphabet import enabled as en
     from mc.world import World
 
-    for seed in (("wired", "nested", "chain") if tier == "quick" else ("empty", "wired", "multi", "nested", "chain", "unsorted")):
+    for seed in ("empty", "wired", "multi", "nested", "chain", "unsorted"):
         w = World(seed)
-        firsts = en(w, groups=("io_lite", "init_lite", "nodelist", "edges", "values", "new"), vcap=4, pair_cap=2)
-        if tier == "quick":
-            firsts = firsts[::4]
+        firsts = en(w, groups=("io_lite", "init_lite", "nodelist", "edges", "values", "new") if tier == "quick" else ("io", "init", "nodelist", "edges", "values", "new", "construct"), vcap=4, pair_cap=2)
         tasks += [("world", (seed, f)) for f in firsts]
     res = common.pmap(_work, common.shuffled(tasks, "c03"), chunksize=1)
     total = sum(a for a, _, _ in res)
